@@ -521,15 +521,9 @@ func c10Run(c *Case) (out string, fails []Fail) {
 		return ""
 	}()
 	if newOut != "" {
-		// accepted by VerifyConfig but not constructible.  With an unknown environment field that is the subject of
-		// C16 (VerifyConfig does not look at them); otherwise the serializer of an accepted configuration must exist.
-		envKnown := true
-		for _, e := range cc.env {
-			if c10Index(cc.schema, e) < 0 {
-				envKnown = false
-			}
-		}
-		if !cc.skipVerify && envKnown {
+		// not constructible.  VerifyConfig checks everything NewEventSerializer needs (environment, hidden and
+		// rewritten fields against the schema, the rewriter chains): an accepted configuration must give a serializer.
+		if !cc.skipVerify {
 			fails = append(fails, Fail{"c10:construct", fmt.Sprintf("configuration accepted by VerifyConfig but NewEventSerializer gives %s; case %s", newOut, c10Describe(cc, &c10Rec{}))})
 		}
 		return newOut, fails
